@@ -199,12 +199,20 @@ static void deliver_ps(int s, const m_evt_t *e, int idx_in_inv, int *is_trigger_
         if (!found) vfail("EV.owner", "EV.owner|ps-userdata", "%s: message on topic %s delivered with a user pointer that belongs to none of its matching subscriptions", m->name, ps->topic ? ps->topic : "NULL");
     }
     if (!pe.optional) g->owed--;
+    g->delivered++;
     msg_busy[pe.msg]++;
     *prio_out = prio; *is_trigger_high = prio == PR_HIGH;
     cur_evrec[idx_in_inv] = new_evrec(e, 0, pe.msg, 0); EV[cur_evrec[idx_in_inv]].prio = prio;
     obs(5000 + pe.msg);
 }
 
+/* an owed message was not handed over: excused only if a full mailbox (injected) may have swallowed that copy, or the send failed as a whole */
+static int owed_excused(int msg) {
+    msg_t *g = &MSG[msg];
+    if (g->rc_neg && g->delivered == 0) return 1;       /* the failing send reached nobody */
+    if (g->may_vanish > 0) { g->may_vanish--; return 1; }
+    return 0;
+}
 static int find_src(int s, int kind, int key) { for (int i = 0; i < MAXSRC; i++) if (MD[s].src[i].present && MD[s].src[i].kind == kind && MD[s].src[i].key == key) return i; return -1; }
 
 static void handle_events(int s, const m_queue_t *evts, int handler_id) {
